@@ -117,9 +117,12 @@ const (
 	zzModeSummary
 	zzModeSibling // `all: deps [build, lint]` where lint fails: build may be cancelled mid-run
 	zzNModes
+	// zzModeKilled (outside the range the general histories choose from): a normal run whose
+	// process is killed while command killAt is running
+	zzModeKilled = zzNModes
 )
 
-var zzModeNames = []string{"run", "dry", "status", "list-json", "force", "summary", "run-with-failing-sibling"}
+var zzModeNames = []string{"run", "dry", "status", "list-json", "force", "summary", "run-with-failing-sibling", "run-killed-part-way"}
 
 type zzHist struct {
 	p         *zzProject
@@ -136,6 +139,7 @@ type zzHist struct {
 	preFails     bool // ... which fails in this step
 	instances bool   // label and sources depend on the call variable T
 	inst      string // value of T in this step
+	killAt    string // probe during which the process of this step is killed ("" = not killed)
 	exit      map[string]uint8
 	ran       []string // probes started in the current step
 }
@@ -226,7 +230,9 @@ func (h *zzHist) otherText() string {
 func (h *zzHist) cmdText(k int, last bool) string {
 	id := zzProbeID("build", k)
 	if zz.Native() {
-		s := fmt.Sprintf("echo S:%s; test -f fail.%s && exit 3; ", id, id)
+		// `read` on a stdin that never delivers blocks inside the in-process shell: the
+		// invocation is then abandoned, which is what a kill at this point leaves behind
+		s := fmt.Sprintf("echo S:%s; test -f kill.%s && read zzline; test -f fail.%s && exit 3; ", id, id, id)
 		if h.sibling {
 			s += "sleep 1; "
 		}
@@ -259,6 +265,9 @@ func (h *zzHist) shell(ctx context.Context, opts *execext.RunCommandOptions) err
 	id := f[1]
 	h.ran = append(h.ran, id)
 	zz.Emit("S", id, 0)
+	if id == h.killAt {
+		zz.Kill() // the whole process dies here
+	}
 	if err := ctx.Err(); err != nil { // cancelled while running: killed
 		zz.Emit("K", id, 0)
 		return err
@@ -273,6 +282,8 @@ func (h *zzHist) shell(ctx context.Context, opts *execext.RunCommandOptions) err
 	zz.Emit("F", id, 0)
 	return nil
 }
+
+var errZZKilled = fmt.Errorf("zz: killed")
 
 func zzWriteFileQuiet(name, content string) { zzFS[name] = &zzFile{content: content, mtime: zzTick()} }
 
@@ -334,6 +345,33 @@ func (h *zzHist) step(k int, mode int, yes bool, failCmd int) zzStepResult {
 		err = e.Run(context.Background(), call)
 	case zzModeSibling:
 		err = e.Run(context.Background(), &Call{Task: "all"})
+	case zzModeKilled:
+		call := &Call{Task: "build"}
+		if zz.Native() {
+			pr, _ := io.Pipe() // never written to
+			e.Stdin = pr
+			os.WriteFile(h.p.path("kill."+h.killAt), nil, 0o644)
+			done := make(chan error, 1)
+			go func() { done <- e.Run(context.Background(), call) }()
+			deadline := time.Now().Add(8 * time.Second)
+		wait:
+			for time.Now().Before(deadline) {
+				select {
+				case err = <-done: // the kill point was never reached (skipped, or failed before)
+					break wait
+				default:
+				}
+				if zzCount(zz.Trace()[before:], "S", h.killAt) > 0 {
+					time.Sleep(50 * time.Millisecond)
+					err = errZZKilled // the invocation stays blocked for good: abandoned
+					break wait
+				}
+				time.Sleep(5 * time.Millisecond)
+			}
+			os.Remove(h.p.path("kill." + h.killAt))
+		} else if zz.Try(func() { err = e.Run(context.Background(), call) }) {
+			err = errZZKilled
+		}
 	case zzModeForce:
 		e.Force = true
 		err = e.Run(context.Background(), &Call{Task: "build"})
@@ -395,11 +433,12 @@ func ZZ_H_History() {
 	}
 	methods := []string{"checksum", "timestamp"}
 	h.method = methods[zz.Choose("method", 2)]
-	h.hasPrompt = zz.Param("sibling_history", 0) == 0 && zz.Bool("has_prompt")
+	focusKill := zz.Param("kill_history", 0) == 1 // the kill history varies the kill point, not these
+	h.hasPrompt = zz.Param("sibling_history", 0) == 0 && !focusKill && zz.Bool("has_prompt")
 	h.hasGen = zz.Bool("has_generates")
 	h.twoCmds = zz.Param("two_cmds", 0) == 1 && zz.Bool("two_cmds")
-	h.methodOnTask = prop != 12 && zz.Bool("method_set_on_task")
-	h.reinclude = (prop == 5 || prop == 4) && zz.Bool("sources_reinclude_excluded_file")
+	h.methodOnTask = prop != 12 && !focusKill && zz.Bool("method_set_on_task")
+	h.reinclude = (prop == 5 || prop == 4) && !focusKill && zz.Bool("sources_reinclude_excluded_file")
 	h.nestedGuard = prop == 12 && zz.Bool("nested_call_with_failing_guard")
 	zzPreFail = true
 	h.p.put("a.src", "v0")
@@ -445,6 +484,25 @@ func ZZ_H_History() {
 			}
 		}
 		mode := zz.Choose(fmt.Sprintf("mode%d", k), zzNModes)
+		h.killAt = ""
+		if zz.Param("kill_history", 0) == 1 {
+			// focused history: runs, then a run killed while one of its commands is
+			// running, then a plain run
+			switch {
+			case k == steps-2:
+				zz.Assume(mode == zzModeRun)
+				mode = zzModeKilled
+				ncmd := 1
+				if h.twoCmds {
+					ncmd = 2
+				}
+				h.killAt = zzProbeID("build", zz.Choose(fmt.Sprintf("killed_during_command%d", k), ncmd))
+			case k == steps-1:
+				zz.Assume(mode == zzModeRun)
+			default:
+				zz.Assume(mode == zzModeRun || mode == zzModeForce)
+			}
+		}
 		yes := !h.hasPrompt || zz.Bool(fmt.Sprintf("yes%d", k))
 		nfail := 2
 		if h.twoCmds {
@@ -497,7 +555,7 @@ func ZZ_H_History() {
 				okVersion = -1
 				last = "cancelled-by-failing-sibling"
 			}
-		case zzModeRun, zzModeForce:
+		case zzModeRun, zzModeForce, zzModeKilled:
 			skipped := !r.started && r.err == nil
 			if prop == 4 && skipped {
 				zz.Assert(allowedSkip, "skip-only-after-a-successful-attempt-for-this-fingerprint/"+h.method+"/after-"+last)
@@ -524,6 +582,8 @@ func ZZ_H_History() {
 				} else {
 					okVersion = -1
 					switch {
+					case r.err == errZZKilled:
+						last = "killed-part-way"
 					case r.started:
 						last = "command-failed"
 					case h.hasPrompt && !yes:
